@@ -7,8 +7,10 @@ TRUSTED = c10.TRUSTED + [
     "the key texts (ids items, JSON object keys of the reply) are produced / read by the C01 models of the ROR2 query writer and header reader "
     "(Codec/Encode.v, Render.v, Decode.v) - strconv float text and parsing are recorded by the driver (oracle); the JSON layer of the reply "
     "(easyjson lexer) is exercised on the real code only, the model receives the object keys after JSON unescaping",
-    "the HTTP leg of the batch methods (collection_batch_methods.go: request construction, c.do) is not exercised here (C02/C15): the driver calls "
-    "the same three steps the methods perform - NewBatchKeySet + AddAllKeys, EncodeQueryParams, BatchResponse.UnmarshalWithKeyLocator - directly",
+    "the batch methods of the client (collection_batch_methods.go BatchGet / BatchDelete / BatchUpdate / BatchPartialUpdate) are driven on a real "
+    "*restli.Client whose transport counts the requests and answers an empty batch response: observed are rejection-before-anything-is-sent and "
+    "the ids parameter of the one request; the correlation of a reply is exercised through the steps the methods perform - NewBatchKeySet + "
+    "AddAllKeys / AddAllMapKeys, EncodeQueryParams, BatchResponse.UnmarshalWithKeyLocator - called directly (request construction itself: C02/C15)",
 ]
 ASSUME = c10.ASSUME + [
     "response theorems: the reply does not list two keys that are equal under key equality inside one map (a Go map keeps the later entry); "
